@@ -130,9 +130,11 @@ def judge_words(fa, ref, n):
 
 def plan(tier, rng, sl, nslices, stats):
     cfg = TIERS[tier]
-    for _ in range(cfg["random"]):
-        c = gfa.random_case(rng, max_states=rng.choice([3, 4, 5, 6]))
-        yield c
+    for i in range(cfg["random"]):
+        if i % 3 == 0:
+            yield gfa.random_dag_case(rng, max_states=rng.choice([3, 4, 5, 6]))
+        else:
+            yield gfa.random_case(rng, max_states=rng.choice([3, 4, 5, 6]))
     if cfg.get("exhaustive"):
         for (n, k) in ((1, 1), (1, 2), (2, 1)):
             tot = gfa.exhaustive_count(n, k)
@@ -154,6 +156,7 @@ def run_case(c, stats):
             stats.cls("tag:" + t)
         fin = ref.is_finite()
         stats.cls("finite" if fin else "infinite")
+        stats.cls("acyclic" if not ref.has_reachable_cycle() else "cyclic")
     call(fa.is_empty)
     call(bool, fa)
     call(fa.is_deterministic)
